@@ -25,6 +25,9 @@ def sym_event(sym, rng=None, k=0):
         return {"k": "err", "id": "$ID", "code": -32005}
     if sym == "Ec":  # error object without code
         return {"k": "err", "id": "$ID", "msg": "no code"}
+    if sym == "E0":  # falsy members: empty error object, code 0, empty message
+        return [{"k": "err", "id": "$ID"}, {"k": "err", "id": "$ID", "code": 0, "msg": ""},
+                {"k": "err", "id": "$ID", "code": 0}][k % 3]
     if sym == "Q":
         return {"k": "req", "id": "$ID", "method": ["sampling/createMessage", "roots/list", "ping", "notifications/progress"][k % 4]}
     if sym == "O":
@@ -36,7 +39,8 @@ def sym_event(sym, rng=None, k=0):
     if sym == "N":
         return {"k": "notif", "method": ["notifications/message", "notifications/tools/list_changed", "notifications/cancelled"][k % 3], "params": {"k": k}}
     if sym == "G":
-        return {"k": "progress", "token": "$TOK", "progress": [0.25, 1, None, 3][k % 4], "total": [None, 10][k % 2], "message": [None, "working"][(k // 2) % 2]}
+        return {"k": "progress", "token": "$TOK", "progress": [0.25, 1, None, 3, 0][k % 5], "total": [None, 10, 0][k % 3],
+                "message": [None, "working", ""][(k // 2) % 3]}
     if sym == "F":
         return {"k": "progress", "token": [{"s": "foreign"}, {"i": 5}, None][k % 3], "progress": 0.5, "total": 2, "message": "foreign"}
     if sym == "B":
@@ -120,7 +124,7 @@ def rand_time(rng, D):
 
 
 def seeded(rng, alphabet, weights=None, max_len=12, ids=None, progress_p=0.5, cancel_p=0.0):
-    D = rng.choice([P, P + 7, 2 * P, 2 * P + 100, 3 * P, 1100, 5 * P - 1])
+    D = rng.choice([P, P + 7, 2 * P, 2 * P + 100, 3 * P, 1100, 5 * P - 1, 1, 3, P - 1])
     n = rng.randint(0, max_len)
     times = sorted(rand_time(rng, D) for _ in range(n))
     word = rng.choices(alphabet, weights=weights, k=n)
